@@ -9,7 +9,7 @@ STORE = r'''
 // it, and it is reset at the end of the iteration / call.  Anything written to a place that survives that reset -- a variable slot,
 // an array element, the output list -- must first go through Value::promote, whose result has no part in the frame arena.
 // outlives(v): no part of v lives in the frame arena.  The contract of Value::promote is `ensures outlives(result)`
-// (decided for strings by K:runtime:cow_promote__contract; arrays / host values: recursive, assumed here).
+// (proved for the real Value::promote, arrays and host values included, by unit residence; string bytes by K:runtime:cow_promote__contract).
 // ---------------------------------------------------------------------------------------------------------------------
 pub uninterp spec fn heap_outlives(v: Value) -> bool;
 pub open spec fn outlives(v: Value) -> bool {
@@ -44,7 +44,7 @@ UNIT = VUnit(
     props=["C02", "C05"],
     source="src/runtime.rs",
     preamble=PRE,
-    trusted=["Value::promote's contract `ensures outlives(result)` is ASSUMED for arrays and host values (recursive body with a consuming for-loop: outside the installed Verus); for strings it is decided by K:runtime:cow_promote__contract",
+    trusted=["Value::promote is used through its contract `ensures outlives(result)`, which unit residence proves for the real body (all value types, region model) and K:runtime:cow_promote__contract for string bytes",
              "the stores are shims whose precondition is the residence requirement; the element-store loop of assign_index is cut out as one opaque call (R11) carrying that precondition",
              "when no frame arena is active (`frame` is the persistent arena itself) there is nothing to outlive"],
     items=[
